@@ -1,7 +1,7 @@
 import props
 
 CONFIG = {
-    "runs": props.simple("c10", 400, 4000),
+    "runs": props.simple("c10", 1500, 6000),
     "status": "full (model level): C10_lex_print (character-level lexer/printer round trip for every node with "
               "machine-range numbers, incl. that `A k..`/`O 0 k..` with k>=1 never hit the `A 0`/`O 0 0` prefix "
               "alternatives), C10_file_is_circuit (the written lines lex to the token list of the vector, header n), "
